@@ -108,6 +108,10 @@ func httpParseResponseLine(line []byte) (resp httpResponseLine, err error) {
 		return resp, ErrMalformedResponse
 	}
 
+	if len(status) != 3 {
+		// RFC7230: status-code = 3DIGIT.
+		return resp, ErrMalformedResponse
+	}
 	var convErr error
 	resp.status, convErr = asciiToInt(status)
 	if convErr != nil {
